@@ -2,6 +2,8 @@
 (C02, C03, C08): pipeline correspondence + predicate on the implementation."""
 from __future__ import annotations
 
+import re
+
 import json
 
 from common import Reporter, conclude, guarded, proof_cov, rng_for, supported
@@ -9,6 +11,11 @@ import blockrun
 import configs
 import docs
 import pipecheck
+
+
+def indep_normalize(src: str) -> str:
+    """the normalised input the properties speak about, computed without the library: CRLF / CR -> LF, NUL -> U+FFFD"""
+    return re.sub(r"\r\n?", "\n", src).replace("\x00", "\ufffd")
 
 
 def run_generic(ctx, pid, kind, predicate, extra_docs, trusted, rule_text, cfg_filter=None, n_quick=(500, 2500), n_thorough=(10000, 80000)):
@@ -24,9 +31,11 @@ def run_generic(ctx, pid, kind, predicate, extra_docs, trusted, rule_text, cfg_f
         return cfg_filter(cfg) if cfg_filter else cfg
 
     def mkdoc(r, k):
-        if extra_docs and k % 3 == 0:
-            return extra_docs(r)
-        return docs.random_doc(r)
+        d = extra_docs(r) if extra_docs and k % 3 == 0 else docs.random_doc(r)
+        if k % 7 == 3:
+            # other line-end encodings: the property speaks about the normalised input
+            d = "".join(r.choice(["\r", "\r\n", "\n"]) if c == "\n" else c for c in d)
+        return d
 
     cases = [(mkcfg(rng, k), "parse", mkdoc(rng, k), None) for k in range(n_corr)]
     n_run, disagreements, kn, kbad, lines = pipecheck.correspond(cases, pid.lower())
@@ -46,7 +55,7 @@ def run_generic(ctx, pid, kind, predicate, extra_docs, trusted, rule_text, cfg_f
             except Exception:  # noqa: BLE001
                 continue
             count["n"] += 1
-            bad = predicate(ts, blockrun.normalize_src(src), env)
+            bad = predicate(ts, indep_normalize(src), env)
             if bad:
                 return {"config": cfg, "src": src, "problem": bad}
         return None
@@ -69,7 +78,7 @@ def replay_generic(body, predicate):
         md = configs.make_md(body["config"])
         env = {}
         ts = md.parse(body["src"], env)
-        bad = predicate(ts, blockrun.normalize_src(body["src"]), env)
+        bad = predicate(ts, indep_normalize(body["src"]), env)
         print("on implementation:", "VIOLATED " + str(bad) if bad else "holds")
         return 1 if bad else 0
     print(json.dumps(body, default=str)[:1500])
